@@ -74,7 +74,7 @@ T0 = S.T0
 # two real endpoints
 # ------------------------------------------------------------------------------------------------
 
-class _Log:
+class _Log(C.LogBase):
     """logger of the real connection: a swallowed exception inside _process_message is `C=kind`, an exception that
     reaches the reader task's own handler is `R=kind` (the task goes on with the next read)"""
 
@@ -89,7 +89,7 @@ class _Log:
     def exception(self, msg="", *a, **k):
         import sys
         kind = S.exc_kind(sys.exc_info()[0])
-        self.eff.append(("R" if str(msg).startswith("socket_read_task") else "C", kind))
+        self.eff.append(("R" if C.log_origin() == "task" else "C", kind))
 
 
 class _Suspend:
@@ -227,7 +227,7 @@ class Pair:
     def _clock(self, now):
         # several Impl objects patch the module clock at construction (the last one wins): set it here, per event
         e0 = self.ends["I"]
-        e0.cm.time = types.SimpleNamespace(time=lambda: now / 1000)
+        e0.cm.time = C.clock_patch(e0.cm, lambda: now / 1000)
         e0.Codec.current_datetime = staticmethod(lambda: S.stamp(now))
         for e in self.ends.values():
             e.now_ms = now
